@@ -109,6 +109,13 @@ fn check_inner(m: usize, t: usize, w: usize) -> Option<String> {
 }
 
 fn check_tokenizer(mut tok: VaporettoTokenizer, text: &str, ws: &str, bytes: &[u8]) -> Option<String> {
+    // a tokenizer object is used for many texts: it first tokenises another text (consumed to the end), then the text
+    // under test; nothing of the first may show in the second
+    {
+        let warm = if text.chars().count() % 2 == 0 { "まぁ社長は火星猫だ\r\nabc 123" } else { "x" };
+        let mut st = tok.token_stream(warm);
+        while st.advance() {}
+    }
     let text = text.to_string();
     let mut stream = tok.token_stream(&text);
     let mut toks = vec![];
